@@ -19,7 +19,8 @@ RULE = ("case maps: all lower, per-record random (each record wholly lower or up
         "InvalidSequence, DuplicateModules, MissingModule outcomes), (c) typing queries of all 85 kit classes and generic classes on "
         "own instances, other instances, instances with an extra cutter site, near-misses, (d) every plasmid of the five bundled registries under the class the registry types it as. Non-trivial = the case map changes at least "
         "one letter of at least one record and the upper-case outcome is not a rejection of every record (typing: the record is accepted "
-        "in upper case); distinct = distinct (workload item, case map).")
+        "in upper case); distinct = distinct (workload item, case map)."
+        " Second session: complete assemblies of the kits' own vector/module classes (C11's generator) and characterize() of registry plasmids through their family base under the case maps.")
 ASSUMPTIONS = ["sequences over ACGT/acgt", "exceptions compared by class, upper-cased start_overhang / set of blamed module ids, and their rendered message up to letter case"]
 FLOORS = {"c18_assembly_comparisons": 1000, "c18_typing_comparisons": 3000, "c18_error_outcomes_compared": 200, "c18_product_outcomes_compared": 300, "c18_registry_plasmids_typed": 300, "c18_kit_class_assemblies": 30, "c18_characterize_comparisons": 100}
 MUST_REACH = ["AssemblyManager._generate_modules_map", "DNARegex._transcribe"]
